@@ -47,7 +47,7 @@ def nodes_of(spec):
 def observe(spec, cfg, history=()):
     out = {}
     flat = sg.flatten(spec)
-    for mode in ('fwd', 'rev'):
+    for mk, mode in enumerate(cfg.get('modes', ('fwd', 'rev'))):
         c2 = dict(cfg, mode=mode)
         p = ob.build(spec, c2)
         p.run_model()
@@ -65,7 +65,10 @@ def observe(spec, cfg, history=()):
             hist.append(np.atleast_2d(Jh).tolist())
         out['H' + mode] = hist
         out['J' + mode] = np.atleast_2d(ob.totals(p, spec, dict(c2, fmt='array', driver_scaling=False))).tolist()
-        if mode == 'fwd':
+        if mk == 0:
+            ci = getattr(p.driver, '_coloring_info', None)
+            col = getattr(ci, 'coloring', None) if ci is not None else None
+            out['coloring_modes'] = '+'.join(col.modes()) if col is not None else None
             vals = []
             for v in flat['vars']:
                 c = spec['comps'][v['comp']]
@@ -117,7 +120,9 @@ def run_all(cases, with_sets):
     for c in cases:
         try:
             o = observe(c['spec'], dict(c['cfg'], err=not with_sets), c.get('history', ()))
-            r = {'Jfwd': o['Jfwd'], 'Jrev': o['Jrev'], 'state': o['state'], 'Hfwd': o['Hfwd'], 'Hrev': o['Hrev']}
+            r = {'state': o['state'], 'coloring_modes': o.get('coloring_modes')}
+            for mode in c['cfg'].get('modes', ('fwd', 'rev')):
+                r['J' + mode], r['H' + mode] = o['J' + mode], o['H' + mode]
             if with_sets:
                 r['D'], r['A'] = real_sets(o['prob'], c['spec'])
         except AnalysisError as e:
@@ -183,13 +188,15 @@ def main():
                 # corresponding error bound
                 ex = sg.exact_all(sg.flatten(c['spec']))
                 slack = 2 * sg.solver_slack(ex) if ex is not None else 0.0
-            items = [('Jfwd', 'total derivatives (fwd)', a['Jfwd'], b['Jfwd']),
-                     ('Jrev', 'total derivatives (rev)', a['Jrev'], b['Jrev']),
-                     ('state', 'converged outputs / responses', a['state'], b['state'])]
-            for m in ('fwd', 'rev'):
+            modes = c['cfg'].get('modes', ('fwd', 'rev'))
+            items = [('J' + m, 'total derivatives (%s)' % m, a['J' + m], b['J' + m]) for m in modes]
+            items.append(('state', 'converged outputs / responses', a['state'], b['state']))
+            for m in modes:
                 for k, (ha, hb) in enumerate(zip(a['H' + m], b['H' + m])):
                     items.append(('H' + m, 'total derivatives (%s) of call %d of the history %s' % (
                         m, k, c['history'][k]), ha, hb))
+            if a.get('coloring_modes'):
+                r['kind'] += ':coloring=' + a['coloring_modes']
             for key, what, va, vb in items:
                 good, why = same(va, vb, exact, slack)
                 if not good and r['ok']:
